@@ -150,6 +150,53 @@ func boundaries(t *testing.T, plan harness.Plan) {
 			return
 		}
 	}
+	// the same limit for labels written on several lines inside containers: the
+	// container prefixes of the continuation lines are not part of the label
+	for _, l := range []int{996, 997, 998, 999, 1000, 1001} {
+		for _, k := range []int{2, 3, 5} {
+			for _, cont := range []struct{ first, next, open, close string }{
+				{"", "", "", ""},
+				{"> ", "> ", "<blockquote>", "</blockquote>"},
+				{">", ">", "<blockquote>", "</blockquote>"},
+				{"- ", "  ", "<ul><li>", "</li></ul>"},
+				{"10. ", "    ", `<ol start="10"><li>`, "</li></ol>"},
+				{"> - ", ">   ", "<blockquote><ul><li>", "</li></ul></blockquote>"},
+			} {
+				lab := []byte(strings.Repeat("a", l))
+				for i := 1; i < k; i++ {
+					lab[i*l/k] = '\n'
+				}
+				top := string(lab)                                                 // the label as written at top level
+				in := strings.ReplaceAll(top, "\n", "\n"+cont.next)               // ... and inside the container
+				md := cont.first + "[" + in + "]: /u\n\n[" + top + "]"
+				var exp string
+				if l <= 999 {
+					exp = cont.open + cont.close + `<p><a href="/u">` + top + `</a></p>`
+				} else {
+					para := "<p>[" + top + "]: /u</p>"
+					if strings.Contains(cont.open, "<li>") {
+						para = "[" + top + "]: /u" // a tight item
+					}
+					exp = cont.open + para + cont.close + "<p>[" + top + "]</p>"
+				}
+				if try(md, exp) {
+					return
+				}
+				if cont.first == "> " {
+					// the use inside the quote as well, as a full reference
+					md = "> [" + in + "]: /u\n>\n> [x][" + in + "]"
+					if l <= 999 {
+						exp = `<blockquote><p><a href="/u">x</a></p></blockquote>`
+					} else {
+						exp = "<blockquote><p>[" + top + "]: /u</p><p>[x][" + top + "]</p></blockquote>"
+					}
+					if try(md, exp) {
+						return
+					}
+				}
+			}
+		}
+	}
 	// (vi) ordered list start numbers: 1-9 digits
 	for d := 1; d <= 11; d++ {
 		num := "1" + strings.Repeat("0", d-1)
@@ -274,7 +321,7 @@ func boundaries(t *testing.T, plan harness.Plan) {
 			return
 		}
 	}
-	harness.SetExhaustive(name, fmt.Sprintf("%d boundary documents: HTML block tag-name tables (62 names x case x 5 tag forms), autolink scheme lengths 1-34, numeric reference digit counts, label lengths around 999, list start digits 1-11, spaces after a marker 1-7, indentation 0-4 per block kind, fence lengths, ATX levels 1-8, setext indentation, hard-break spaces, all named character references", n))
+	harness.SetExhaustive(name, fmt.Sprintf("%d boundary documents: HTML block tag-name tables (62 names x case x 5 tag forms), autolink scheme lengths 1-34, numeric reference digit counts, label lengths around 999 (on one line, and on 2-5 lines inside quotes and list items), list start digits 1-11, spaces after a marker 1-7, indentation 0-4 per block kind, fence lengths, ATX levels 1-8, setext indentation, hard-break spaces, all named character references", n))
 }
 
 func min1(d int) int {
